@@ -4,6 +4,8 @@ import ZorgVerif.Model.Zid
 import ZorgVerif.Model.Groups
 import ZorgVerif.Model.Rename
 import ZorgVerif.Model.Template
+import ZorgVerif.Gen.FileLexer
+import ZorgVerif.Gen.QueryLexer
 /-! Line protocol: one JSON request per line on stdin, one JSON answer per line on stdout. -/
 open Lean ZorgVerif
 
@@ -129,6 +131,21 @@ def handleTemplate (op : String) (j : Json) : Except String Json := do
     pure (Json.mkObj [("built", jstr (Template.build txt.toList))])
   | _ => throw s!"unknown op {op}"
 
+def rulesOf (which : String) : Except String Lex.Rules :=
+  match which with
+  | "file" => pure Gen.FileLexer.rules
+  | "query" => pure Gen.QueryLexer.rules
+  | _ => throw s!"unknown lexer {which}"
+
+def handleLex (op : String) (j : Json) : Except String Json := do
+  match op with
+  | "lex.tokens" =>
+    let rules ← rulesOf (← strOf j "lexer")
+    let txt ← strOf j "text"
+    let toks := Lex.lex rules txt.toList
+    pure (Json.arr (toks.map (fun t => Json.arr #[Json.str t.name, jstr t.text])).toArray)
+  | _ => throw s!"unknown op {op}"
+
 def handle (line : String) : Json :=
   match Json.parse line with
   | .error e => Json.mkObj [("driver_error", s!"parse: {e}")]
@@ -141,6 +158,7 @@ def handle (line : String) : Json :=
         else if op.startsWith "groups." then handleGroups op j
         else if op.startsWith "rename." then handleRename op j
         else if op.startsWith "template." then handleTemplate op j
+        else if op.startsWith "lex." then handleLex op j
         else .error s!"unknown op {op}"
       match r with
       | .ok v => v
